@@ -473,6 +473,16 @@ func (env *SpecEnv) callExpr(x *ast.CallExpr) *Value {
 			n.lookup = env.preLookup
 		}
 		return n.eval(x.Args[0])
+	case "forallval":
+		// forallval(k, body): k ranges over all interface values
+		id := x.Args[0].(*ast.Ident)
+		c := env.child()
+		bv := BoundVar(fmt.Sprintf("%s_q%d", id.Name, freshSeqNext()), SVal)
+		c.bound[id.Name] = &Value{T: types.NewInterfaceType(nil, nil), L: []*Term{bv}}
+		return &Value{T: tBool, L: []*Term{Forall([]*Term{bv}, c.eval(x.Args[1]).One())}}
+	case "has":
+		m, k := env.eval(x.Args[0]), env.eval(x.Args[1])
+		return &Value{T: tBool, L: []*Term{And(Not(Eq(m.One(), NilLoc)), Select(env.st.Sel(env.st.MapHas(k.L[0].Sort), m.One()), k.L[0]))}}
 	case "head":
 		// value at the head of the current iteration of the enclosing loop
 		n := *env
